@@ -80,7 +80,11 @@ JudgeCall(e, m) ==
       \* (a call that only buffers half a frame leaves *nBytesOut untouched)
       obs  == <<IF e.pf = 0 /\ post.ch[1].ibx > 0 THEN 0 ELSE e.out, e.sr, e.mbo, e.al, e.wb, e.ir>>
       R    == {Encode(m, c, e.pf, e.nblk, e.av, OracleOf(e, c, post, lb)) : lb \in LbCands(m, post)}
-      full == {r \in R : r.ret = 0 - e.ret /\ r.ok /\ r.s = post /\ outs(r) = obs}
+      \* the side channel's target rate is set by the last frame that coded it: when the last frame of a multi-frame packet
+      \* is mid-only that frame's rate split was not observed
+      mask(st) == IF c.nInt = 2 /\ post.ch[1].nfe > 1 /\ post.midOnly[post.ch[1].nfe] = 1
+                  THEN [st EXCEPT !.ch[2].tr = 0, !.ch[2].snr = 0, !.ch[2].act = 0] ELSE st
+      full == {r \in R : r.ret = 0 - e.ret /\ r.ok /\ mask(r.s) = mask(post) /\ outs(r) = obs}
       any  == CHOOSE r \in R : TRUE
       best == IF full # {} THEN CHOOSE r \in full : TRUE ELSE any
       lastF == IF Len(best.frames) > 0 THEN best.frames[Len(best.frames)] ELSE [ffar |-> <<0, 0>>]
@@ -90,7 +94,7 @@ JudgeCall(e, m) ==
         <<"Call.oracleLegal", \E r \in R : r.ok>>,
         <<"Call.super", \E r \in R : [r.s EXCEPT !.ch = 0] = [post EXCEPT !.ch = 0]>>,
         <<"Call.ch0", \E r \in R : r.s.ch[1] = post.ch[1]>>,
-        <<"Call.ch1", \E r \in R : r.s.ch[2] = post.ch[2]>>,
+        <<"Call.ch1", \E r \in R : mask(r.s).ch[2] = mask(post).ch[2]>>,
         <<"Call.outputs", \E r \in R : outs(r) = obs>>,
         <<"Call.whole", full # {}>>,
         <<"Derived.ch0", DerivedOK(e.c0)>>, <<"Derived.ch1", DerivedOK(e.c1)>>,
@@ -213,9 +217,11 @@ Step ==
        [] e.k = "octl" ->
             /\ ts' = ts
             /\ tg' = IF e.r # 0 THEN tg
-                     ELSE IF e.rq = "rs" THEN [G0 EXCEPT !.Fs = tg.Fs, !.ch = tg.ch]
+                     \* (settings survive OPUS_RESET_STATE; a forced bandwidth takes precedence over the maximum: the
+                     \*  rate clause is asserted only on executions that never force one and never move the maximum mid-stream)
+                     ELSE IF e.rq = "rs" THEN [G0 EXCEPT !.Fs = tg.Fs, !.ch = tg.ch, !.mbAge = tg.mbAge]
                      ELSE IF e.rq = "fc" /\ tg.started THEN [tg EXCEPT !.fcAge = 0]
-                     ELSE IF e.rq \in {"mb", "bw"} /\ tg.started THEN [tg EXCEPT !.mbAge = 0] ELSE tg
+                     ELSE IF e.rq = "bw" \/ (e.rq = "mb" /\ tg.started) THEN [tg EXCEPT !.mbAge = 0] ELSE tg
             /\ tt' = tt \cup (IF e.rq = "rs" THEN {"oReset"} ELSE {}) /\ Finish(tt')
        [] e.k = "oe" ->
             \E v \in {JudgeOpus(e, tg)} :
